@@ -279,6 +279,10 @@ def configs(tier, seed):
         for W in (1, 2):
             out.append(("A", dict(src="generic", max_states=1500 if tier == "quick" else 7000,
                                   cfg=dict(kind=kind, seed=seed, R=4 if kind in ("dehb", "shb") else 3, W=W, T=T, F=0, mode="min"))))
+    # PBT with populations whose upper quantile holds two and three trials (the clone source is drawn by position in it)
+    for pop, W, T in ((4, 4, 6), (4, 3, 6), (6, 6, 8)):
+        out.append(("A", dict(src="generic", max_states=3000 if tier == "quick" else 9000,
+                              cfg=dict(kind="pbt", seed=seed, R=3, W=W, T=T, F=0, mode="min", kw=dict(population_size=pop)))))
     # table enumeration: PASHA (levels 1, 3, 9; soft ranking with a learnt epsilon needs criss-crossing curves and three trials
     # in the top rung) and plain promotion on the same curves, one long single-worker history per table.
     # T=9: with 10 entries in a rung the 1/3-quantile position is 3.0 in one mode and 6.000000000000001 in the other (round-off
